@@ -25,6 +25,7 @@ pub fn base_model() -> Model {
         ("nest", FnModel::Nested),
         ("cnt", FnModel::NeedsTuple),
         ("nf", FnModel::FailNotFound("typeof")),
+        ("deep", FnModel::Deep),
     ] {
         m.funs.insert(n.to_string(), f);
     }
@@ -136,7 +137,12 @@ impl<'a> ProgGen<'a> {
             // a variable read of a name that is only bound as a function; a re-entrant function; a function that
             // rejects non-tuples with the library's own error
             let k = self.k;
-            return match self.r.below(5) {
+            return match self.r.below(8) {
+                // dozens of nested evaluations on this thread (more than 64), or none
+                7 => call("deep", if k % 3 == 0 { 2 } else { 66 + k % 12 }),
+                // text with line endings of every kind inside a literal is that text, for every entry point
+                5 => Ast::Const(RV::Str("l1\r\nl2\rl3\n".into())),
+                6 => Ast::Call("len".into(), Box::new(Ast::Const(RV::Str("a\r\nb".into())))),
                 4 => call("nf", k),
                 0 => Ast::Read((*self.r.pick(&["t", "id", "b", "fail"])).to_string()),
                 1 => call("nest", k),
@@ -578,6 +584,20 @@ pub fn check_program(out: &mut Out, ast: &Ast, model: &Model, r: &mut Rng) {
         out.count("reused precompiled trees");
         exec::compare(out, "order/reused-tree", &src, model, &rr, &again, Entry::TreeMut);
     }
+    // … and the other way round: the tree has been evaluated where its builtin names meant the builtins; now every one
+    // of them is a user function of the context, which takes precedence from this evaluation on
+    if judged && r.chance(1, 4) {
+        let mut shadowed = model.clone();
+        shadowed.builtins_off = false;
+        for n in ["len", "max", "min", "typeof", "if", "str::from", "math::abs", "floor", "contains"] {
+            shadowed.funs.insert(n.into(), FnModel::Marker);
+        }
+        let rs = exec::run_ref(ast, &shadowed, true);
+        let is2 = exec::run_impl(&src, Some(&tree), &shadowed, Entry::TreeMut, false);
+        out.eval();
+        out.count("evaluated trees meeting a context that shadows the builtins");
+        exec::compare(out, "order/reused-tree-shadowed-later", &src, &shadowed, &rs, &is2, Entry::TreeMut);
+    }
     // a tree that received this program through `clone_from` (over a longer, a shorter and a differently shaped
     // tree) is this program: equal, and evaluated with the same effects
     if judged && r.chance(1, 6) {
@@ -677,6 +697,37 @@ impl Phase for LongLived {
         self.n
     }
     fn run(&mut self, idx: u64, r: &mut Rng, out: &mut Out) {
+        if idx % 25 == 7 {
+            // a script of hundreds or thousands of statements with effects whose LAST statement does not parse: nothing is
+            // evaluated, so nothing happens (no call, no assignment), whichever entry point gets the text
+            let n = *r.pick(&[10usize, 100, 600, 1000, 1400, 3000]);
+            let mut src = String::new();
+            for k in 0..n {
+                src.push_str(&format!("x{} = t({}); ", k % 7, k));
+            }
+            src.push_str(*r.pick(&["(", "1 +* 2)", "\"unterminated", "f(1", ") 1", "1 2"]));
+            out.begin(|| format!("{} statements with effects, then a statement that does not parse", n));
+            let model = base_model();
+            for entry in [Entry::StrMut, Entry::StrImm] {
+                let i = exec::run_impl(&src, None, &model, entry, false);
+                out.eval();
+                let parse_error = matches!(&i.got, api::Got::Err(crate::refmodel::errs::ErrClass::Parse(_), _) | api::Got::Err(crate::refmodel::errs::ErrClass::Arity, _));
+                if !i.effects.is_empty() || !api::same_vars(&i.vars_after, &model.vars) || matches!(i.got, api::Got::Val(_)) {
+                    out.violation(
+                        "order/effects-of-a-script-that-does-not-parse",
+                        format!("{} statements `x<k> = t(<k>);` followed by `{}`  [entry {:?}]", n, &src[src.len().saturating_sub(14)..], entry),
+                        "an error, no effect, context unchanged".into(),
+                        format!("{} ; {} effect events ; final {}", i.got.show(), i.effects.len(), api::show_vars(&i.vars_after)),
+                    );
+                }
+                if !parse_error {
+                    out.count("long scripts rejected with a non-syntax error class");
+                }
+            }
+            out.nontrivial(&format!("longscript {} {}", n, idx));
+            out.count("long scripts that do not parse");
+            return;
+        }
         if idx % 5 == 4 {
             // deep program: 130-600 levels of right-nested operators / parentheses / calls, effects at every level
             // (kept within the documented 4096-character input bound)
